@@ -1,5 +1,6 @@
 /-
-C02 helper lemmas, part 10: the comparators the harness drives the lists with are total orders.
+C02 helper lemmas, part 10: the comparators the harness drives the lists with are total orders,
+or (those that identify distinct keys) weak orders.
 -/
 import Golib.Proof.C02Chain
 import Golib.Model.C02
@@ -75,4 +76,28 @@ theorem cmpLen_total : TotalCmp cmpLen := by
     (repeat' split) <;> first | omega | exact cmpBytes_gt_iff a b
   · intro a b c; simp only [cmpLen, cmpInt]
     (repeat' split) <;> intro h1 h2 <;> first | omega | exact cmpBytes_trans a b c h1 h2
+
+/-! ### comparators that identify distinct keys -/
+
+theorem cmpInt_weak : WeakCmp cmpInt := cmpInt_total.toWeak
+
+/-- Comparing by a projection with a weak order is a weak order. -/
+theorem WeakCmp.proj {K J : Type} {cmp : J → J → Int} (h : WeakCmp cmp) (f : K → J) :
+    WeakCmp (fun a b => cmp (f a) (f b)) :=
+  ⟨fun a => h.refl (f a), fun a b => h.gt_iff (f a) (f b), fun a b c => h.le_trans (f a) (f b) (f c)⟩
+
+theorem cmpHalf_weak : WeakCmp cmpHalf := cmpInt_weak.proj (fun a : Int => a / 2)
+
+theorem cmpLenOnly_weak : WeakCmp cmpLenOnly := cmpInt_weak.proj (fun a : List Nat => (a.length : Int))
+
+/-- The reverse of a weak order is a weak order. -/
+theorem WeakCmp.reverse {K : Type} {cmp : K → K → Int} (h : WeakCmp cmp) : WeakCmp (fun a b => cmp b a) :=
+  ⟨fun a => h.refl a, fun a b => h.gt_iff b a, fun a b c h1 h2 => h.le_trans c b a h2 h1⟩
+
+/-- `cmpHalf` does identify distinct keys: it is not a total-order comparator. -/
+theorem cmpHalf_not_total : ¬ TotalCmp cmpHalf := by
+  intro h
+  have := (h.eq_iff (4 : Int) 5).mp (by decide)
+  omega
+
 end Golib.C02
